@@ -6,13 +6,14 @@
 // ((object, nil | non-fatal) or (nil, fatal), never the mixed cases).
 //
 // The summary of a return is what a small abstract interpreter can establish syntactically:
-//   * the object / error expression is nil, a constructor (&x, new, make, composite literal,
+//   - the object / error expression is nil, a constructor (&x, new, make, composite literal,
 //     errors.New, fmt.Errorf, asn1.SyntaxError{...}), a NonFatalErrors value, `&errs` of type
 //     Errors (with what is known about errs.Fatal()), an element of a NonFatalErrors list, or
 //     a variable that holds a result of an earlier call;
-//   * for every earlier call so referred to (or tested on the way): which error kinds
+//   - for every earlier call so referred to (or tested on the way): which error kinds
 //     (nil / NonFatalErrors / other) and which object nil-ness the enclosing conditions
 //     `err != nil`, `err == nil`, `_, ok := err.(NonFatalErrors); !ok`, `x == nil` still allow.
+//
 // The interpreter is flow-sensitive (if / for / range / switch with joins, loops to a fixpoint),
 // treats every variable whose address is taken or that a closure assigns as unknown, forgets a
 // call's results when the call site is executed again, and classifies everything it does not
@@ -303,23 +304,23 @@ type sig struct {
 }
 
 type analyzer struct {
-	cfg       config
-	info      *types.Info
-	pkg       *types.Package
-	decls     map[string]*ast.FuncDecl
-	contracts map[string]string // emitted function name -> contract
-	sigs      map[string]sig
-	fatalID   map[string]bool
-	idOrder   []string
-	externs   map[string]bool
-	addSeen   map[token.Pos]bool
-	litSeen   map[*ast.FuncLit]bool
-	adds      []addRec
-	results   map[string][]*retRec
-	closureOf map[types.Object]string // local func variable / func-typed parameter -> emitted name
+	cfg         config
+	info        *types.Info
+	pkg         *types.Package
+	decls       map[string]*ast.FuncDecl
+	contracts   map[string]string // emitted function name -> contract
+	sigs        map[string]sig
+	fatalID     map[string]bool
+	idOrder     []string
+	externs     map[string]bool
+	addSeen     map[token.Pos]bool
+	litSeen     map[*ast.FuncLit]bool
+	adds        []addRec
+	results     map[string][]*retRec
+	closureOf   map[types.Object]string // local func variable / func-typed parameter -> emitted name
 	nfeAsserted map[types.Object]bool
-	pending   []pendingLit
-	covers    []string
+	pending     []pendingLit
+	covers      []string
 }
 
 type pendingLit struct {
